@@ -45,6 +45,7 @@ def step (line : String) : String :=
   | id :: _cls :: "send" :: args => s!"{id} {evalSend args}"
   | id :: _cls :: "sendhist" :: args => s!"{id} {evalSendHist args}"
   | id :: _cls :: "sendseq" :: args => s!"{id} {evalSendSeq args}"
+  | id :: _cls :: "sendm" :: args => s!"{id} {evalSendM args}"
   | id :: _cls :: "slsend" :: args => s!"{id} {evalSlSend args}"
   | id :: _cls :: "slhist" :: args => s!"{id} {evalSlHist args}"
   | id :: _cls :: "hs" :: args => s!"{id} {evalHs args}"
